@@ -52,13 +52,23 @@ func init() {
 var scalarKinds = []string{"Bool", "Byte", "Int16", "Int32", "Int64", "Uint16", "Uint32", "Uint64", "Bin64", "Bin128", "Bin256", "Float32", "Float64", "Bytes", "String"}
 
 // caseLiterals maps "KindX" -> string literals found in that case clause of fn (nested switches included).
-func caseLiterals(fd *ast.FuncDecl) map[string][]string {
+func caseLiterals(gp *packages.Package, fd *ast.FuncDecl) map[string][]string {
 	out := map[string][]string{}
 	var walk func(n ast.Node, kinds []string)
 	walk = func(n ast.Node, kinds []string) {
 		ast.Inspect(n, func(m ast.Node) bool {
 			cc, ok := m.(*ast.CaseClause)
 			if !ok {
+				// a table-driven arm: w.writef(table[kind], ...) - each entry is the literal of its own kind
+				if ix, ok := m.(*ast.IndexExpr); ok {
+					if tbl := kindTable(gp, fd, ix); tbl != nil {
+						for _, k := range sortedKeys(tbl) {
+							if len(kinds) == 0 || in(kinds, k) {
+								out[k] = append(out[k], tbl[k])
+							}
+						}
+					}
+				}
 				if bl, ok := m.(*ast.BasicLit); ok && bl.Kind == token.STRING && len(kinds) > 0 {
 					if s, err := strconv.Unquote(bl.Value); err == nil {
 						for _, k := range kinds {
@@ -159,7 +169,7 @@ func runR05_1(c *Ctx, r *R) {
 			r.Unk("internal/lang/generator."+fn, 0, "anchor lost: function %s not found", fn)
 			return nil
 		}
-		return caseLiterals(fd)
+		return caseLiterals(gp, fd)
 	}
 	reader := get("messageWriter.field")
 	writer := get("messageWriter.writer_field")
@@ -357,11 +367,20 @@ func runR05_3(c *Ctx, r *R) {
 			if !ok || (se.Sel.Name != "writef" && se.Sel.Name != "linef") {
 				return true
 			}
-			bl, ok := call.Args[0].(*ast.BasicLit)
-			if !ok {
+			var formats []string
+			var bl ast.Expr = call.Args[0]
+			if lit, ok := call.Args[0].(*ast.BasicLit); ok {
+				f0, _ := strconv.Unquote(lit.Value)
+				formats = []string{f0}
+			} else if tbl := kindTable(gp, fd, call.Args[0]); tbl != nil {
+				// table-driven template: every entry is filled with the arguments of this one call
+				for _, k := range sortedKeys(tbl) {
+					formats = append(formats, tbl[k])
+				}
+			} else {
 				return true
 			}
-			format, _ := strconv.Unquote(bl.Value)
+			for _, format := range formats {
 			verbs := reVerb.FindAllString(format, -1)
 			for i, v := range verbs {
 				if v != "%d" {
@@ -385,6 +404,7 @@ func runR05_3(c *Ctx, r *R) {
 				} else {
 					r.Bad(key, bl.Pos(), "the tag placeholder of template %q is filled with %s instead of the Tag of the field being emitted: the accessor reads/writes another field's tag", format, exprString(arg))
 				}
+			}
 			}
 			return true
 		})
